@@ -33,7 +33,7 @@ CASE_TIMEOUT = 10.0
 
 MATH_MODES = ['text', 'with-delimiters', 'verbatim', 'remove']
 MM_WIRE = {'text': 'T', 'with-delimiters': 'D', 'verbatim': 'V', 'remove': 'R'}
-SLS_VALUES = [False, None, True, 'macros', 'based-on-source', 'except-in-equations',
+SLS_VALUES = [False, None, True, 'macros', 'based-on-source', 'except-in-equations', 'on', 'off', 'default',     # documented aliases: on = True, off = False, default (deprecated) = based-on-source
               {'between-macro-and-chars': True}, {'between-latex-constructs': True, 'in-equations': True},
               {'after-comment': True, 'in-equations': False},
               {'between-macro-and-chars': True, 'between-latex-constructs': True, 'after-comment': True, 'in-equations': 'macros'},
@@ -46,9 +46,9 @@ DEFAULT_OPTS = {'mm': 'text', 'sls': False, 'kc': False, 'kb': False, 'ml': 2, '
 
 def sls_wire(v):
     if v is None: return 'N'
-    if v is False: return 'B0'
-    if v is True: return 'B1'
-    if v == 'based-on-source': return 'S'
+    if v is False or v == 'off': return 'B0'
+    if v is True or v == 'on': return 'B1'
+    if v == 'based-on-source' or v == 'default': return 'S'
     if v == 'macros': return 'M'
     if v == 'except-in-equations': return 'E'
     if isinstance(v, dict):
